@@ -113,6 +113,8 @@ def run(run: C.Run):
     thorough = run.tier == "thorough"
     cases = F.corpus("C06") + gen_cases(rng, 7000 if thorough else 1600, exhaustive_upto=7 if thorough else 5)
     R.check_reduce_cases(run, cases, "C06", nontrivial, grouped_fn=grouped_fn, vs_eager=True)
+    # many groups, many ties, many blocks (not sent to the Coq model)
+    R.check_reduce_cases(run, G.tie_heavy_cases(rng, 300 if thorough else 50), "C06", nontrivial, grouped_fn=grouped_fn, vs_eager=True, model=False)
     if not proofs_ok and not run.violations:
         run.violation({"property": "C06", "kind": "proof obligation no longer checks", "failed": P.failed_obligations(run)},
                       nofail=True, tag="obligation")
